@@ -126,6 +126,14 @@ func VerifC14ConcurrentAdd() {
 	w := vMixed(1, 0, nil)
 	vFreezeEnv()
 	p2 := w.net.addPeer(2, true)
+	p3 := w.net.addPeer(3, true)
+	// the second goroutine asks for the same id under the same address - or under another
+	// one (then at most one of the two creations may succeed: an id names one address)
+	addrs := [2]string{p2.addr, p2.addr}
+	if vChoice("same-address", 2) == 0 {
+		addrs[1] = p3.addr
+		vReach("one-id-two-addresses")
+	}
 	var got [2]*RawNode
 	var failed [2]bool
 	for g := 0; g < 2; g++ {
@@ -133,14 +141,14 @@ func VerifC14ConcurrentAdd() {
 		via := vChoice("via", 2)
 		go func() {
 			if via == 0 {
-				n, err := NewRawNodeWithID(p2.addr, 2)
+				n, err := NewRawNodeWithID(addrs[g], 2)
 				if err != nil || w.mgr.AddNode(n) != nil {
 					failed[g] = true
 					return
 				}
 				got[g] = n
 			} else {
-				c, err := NewRawConfiguration(w.mgr, WithNodeMap(map[string]uint32{p2.addr: 2}))
+				c, err := NewRawConfiguration(w.mgr, WithNodeMap(map[string]uint32{addrs[g]: 2}))
 				if err != nil {
 					failed[g] = true
 					return
@@ -162,10 +170,11 @@ func VerifC14ConcurrentAdd() {
 	for g := 0; g < 2; g++ {
 		if !failed[g] {
 			vAssert(got[g] == pooled, "C14.node-not-pooled.concurrent|C15.two-node-objects-for-one-id")
+			vAssert(got[g].Address() == addrs[g], "C14.address-silently-mapped-to-another-node")
 		}
 	}
 	vAssert(!failed[0] || !failed[1], "C14.both-creations-failed")
-	vAssert(p2.conns <= 1, "C14.second-connection-for-one-id|C12.connection-left")
+	vAssert(p2.conns+p3.conns <= 1, "C14.second-connection-for-one-id|C12.connection-left")
 	vReach("end")
 }
 
